@@ -1,11 +1,6 @@
-use toolbox_rs::{cell::BaseCell, edge::InputEdge};
+use toolbox_rs::top_k::top_k;
 fn main() {
-    let c = BaseCell { incoming_nodes: vec![1,2], outgoing_nodes: vec![2,3], edges: vec![InputEdge::new(1,2,4usize), InputEdge::new(2,3,5)] };
-    println!("{:?} expect [4, 9, 0, 5]", c.process().matrix);
-    let c = BaseCell { incoming_nodes: vec![5], outgoing_nodes: vec![5], edges: vec![InputEdge::new(5,6,1usize)] };
-    println!("{:?} expect [0]", c.process().matrix);
-    let c = BaseCell { incoming_nodes: vec![1,2], outgoing_nodes: vec![3], edges: vec![InputEdge::new(1,1,5usize)] };
-    println!("{:?} expect [MAX, MAX]", c.process().matrix);
-    let c = BaseCell { incoming_nodes: vec![1,2], outgoing_nodes: vec![2], edges: vec![] };
-    println!("{:?} expect [MAX, 0]", c.process().matrix);
+    println!("{:?}", top_k(vec![3u32,1,2], 100000000000));
+    println!("{:?}", top_k(vec![3u32,1,2], usize::MAX));
+    println!("{:?}", top_k(vec![3u32,1,2,9,8,7,0], 2));
 }
